@@ -83,6 +83,12 @@ class UserNotImpl(NotImplementedError):
         self.code = code
 
 
+class UserIndex(IndexError):
+    def __init__(self, code):
+        super().__init__(code)
+        self.code = code
+
+
 class UserFalsy(Exception):
     """an exception object that evaluates as false (e.g. an error collection raised while empty)"""
 
@@ -100,7 +106,7 @@ class UserFalsy(Exception):
 # exceptions a callback may raise that derive from classes Python or asyncio themselves give a meaning to:
 # they must escape like any other exception of a callback
 EXC_CLASSES = {"runtime": UserRuntime, "attr": UserAttr, "key": UserKey, "type": UserType, "notimpl": UserNotImpl,
-               "falsy": UserFalsy}
+               "falsy": UserFalsy, "index": UserIndex}
 
 
 def user_exception(sc, code, sync_only_ok=True):
@@ -144,7 +150,9 @@ class AnyEq(Opq):
 
 # undeclared event names that are names of other attributes of the machine (state ids, reserved words, ...)
 SPECIAL_NAMES = {800: "s0", 801: "model", 802: "current_state", 803: "states", 804: "send", 805: "u1",
-                 806: "allowed_events", 807: "s1", 808: "current_state_value", 809: "add_listener"}
+                 806: "allowed_events", 807: "s1", 808: "current_state_value", 809: "add_listener",
+                 # (812..814: DECLARED events that are called like a state, see c13.post)
+                 812: "s2", 813: "s3", 814: "s4"}
 
 
 def evname(e):
@@ -314,7 +322,7 @@ def _enter(p, kind, k, isg, kw):
     scripts, dflt = R.tbl.get(key, ([], DEFAULT_SCRIPT))
     script = scripts[n] if n < len(scripts) else dflt
     if tag in getattr(R, "mute_tags", ()):
-        return R, dict(script, a=[a for a in script["a"] if a[0] != "raise"]), m    # unrelated machine (C16): not logged
+        return R, dict(script, a=[a for a in script["a"] if a[0] not in ("raise", "write")]), m    # unrelated machine (C16): not logged
     # the injected event_data must describe the same event as the individual built-in parameters
     ed = kw.get("event_data")
     consistent = True
@@ -360,6 +368,9 @@ def _cb(p, kind, k, isg, kw):
                 r.close()
                 r = None
             R.log.append(["n", "v", to_json(r)])
+        elif act[0] == "write":
+            # the low-level API: the callback assigns the state itself
+            m.current_state_value = state_value(RUN.sc, act[1])
         else:
             raise user_exception(RUN.sc, act[1])
     return from_json(script["r"])
@@ -435,6 +446,8 @@ async def _acb_body(R, script, m):
             R.log.append(["n", "v", to_json(r)])
         elif act[0] == "yield":
             await asyncio.sleep(0)
+        elif act[0] == "write":
+            m.current_state_value = state_value(RUN.sc, act[1])
         else:
             raise user_exception(RUN.sc, act[1], sync_only_ok=False)
     return from_json(script["r"])
@@ -446,7 +459,8 @@ GUARD_NAMES_CACHE = {}
 
 def guard_names(sc):
     g = set()
-    for t in sc["trans"] + ([sc["any_render"]] if sc.get("any_render") else []) + list(sc.get("also_guards", [])):
+    for t in (sc["trans"] + ([sc["any_render"]] if sc.get("any_render") else [])
+              + ([sc["any_render2"]] if sc.get("any_render2") else []) + list(sc.get("also_guards", []))):
         for nm, _ in t["cond"]:
             g.add(tuple(nm))
     return g
@@ -471,7 +485,7 @@ def render_source(sc):
     gn = guard_names(sc)
     acoros = {tuple(x) for x in sc.get("async", [])}
     out = ["from statemachine import State, StateMachine",
-           "from harness.eng import _cb, _acb, _Aw, _prop", ""]
+           "from harness.eng import _cb, _acb, _Aw, _prop", "from inspect import markcoroutinefunction as _mark", ""]
 
     inst = []
     hooks = []
@@ -501,6 +515,11 @@ def render_source(sc):
                     ls.append(f"{ind}def {cbname(nm)}(self, **kw): return _Aw(_acb({p}, {kind}, {k}, {isg}, kw))")
                 else:
                     ls.append(f"{ind}def {cbname(nm)}(self, **kw): return _acb({p}, {kind}, {k}, {isg}, kw)")
+            elif (p, kind, k) in acoros and sc.get("marked_coros"):
+                # a plain function that hands back the coroutine, declared a coroutine function with
+                # inspect.markcoroutinefunction (what decorators wrapping async functions do since Python 3.12)
+                ls.append(f"{ind}def {cbname(nm)}(self, **kw): return _acb({p}, {kind}, {k}, {isg}, kw)")
+                ls.append(f"{ind}{cbname(nm)} = _mark({cbname(nm)})")
             elif (p, kind, k) in acoros:
                 ls.append(f"{ind}async def {cbname(nm)}(self, **kw): return await _acb({p}, {kind}, {k}, {isg}, kw)")
             else:
@@ -721,8 +740,14 @@ def render_source(sc):
             if decor_ev and decor_ev[0] == e:
                 # the event is declared by decorating its `on` action with the transition list
                 p_, (kind_, k_) = 0, decor_ev[1]
-                body.append(f"    @({tl_})")
-                body.append(f"    def {evname(e)}(self, **kw): return _cb({p_}, {kind_}, {k_}, False, kw)")
+                if (decor or {}).get("event_alias"):
+                    # the decorated function has another name than the attribute the event is bound to
+                    body.append(f"    def impl_{evname(e)}(self, **kw): return _cb({p_}, {kind_}, {k_}, False, kw)")
+                    body.append(f"    {evname(e)} = ({tl_})(impl_{evname(e)})")
+                    body.append(f"    del impl_{evname(e)}")
+                else:
+                    body.append(f"    @({tl_})")
+                    body.append(f"    def {evname(e)}(self, **kw): return _cb({p_}, {kind_}, {k_}, False, kw)")
             elif sc.get("ior") and " | " in tl_:
                 # built up with the augmented operator: `go = tr0` then `go |= tr3` (tr0 itself must stay as it is:
                 # other events may name it too)
@@ -750,7 +775,13 @@ def render_source(sc):
         # one transition from every non-final state, written as target.from_.any(...) under its own event
         a = sc["any_render"]
         kw_any = [k for k in kwargs_of(a) if not k.startswith("event=")]
-        body.append(f"    {evname(a['ev'][0])} = {S(a['t'])}.from_.any({', '.join(kw_any)})")
+        line = f"    {evname(a['ev'][0])} = {S(a['t'])}.from_.any({', '.join(kw_any)})"
+        if sc.get("any_render2"):
+            # two from_.any() parts under one event: every non-final state gets one transition of each
+            a2 = sc["any_render2"]
+            kw2 = [k for k in kwargs_of(a2) if not k.startswith("event=")]
+            line += f" | {S(a2['t'])}.from_.any({', '.join(kw2)})"
+        body.append(line)
     out[0] = "from statemachine import " + ", ".join(sorted(imports - {"States"}))
     if "States" in imports:
         pre.insert(0, "from statemachine.states import States")
@@ -771,9 +802,15 @@ def render_source(sc):
             out.append(f"def fn_{cbname(list(nm))}(**kw): return _cb(0, {nm[0]}, {nm[1]}, {nm in gn}, kw)")
     if bound_refs and callables_:
         out.append("EXT = Ext()")
+    decor_defined = ({tuple(nm) for _j, _g, nm in decor_cbs} | ({tuple(decor_ev[1])} if decor_ev else set())
+                     | ({tuple(decor_evobj[2])} if decor_evobj else set())
+                     | {tuple(nm) for _i, _g, nm in state_decor} | callables_)
+    methods_in_base = bool(sc.get("base_first")) and ext_ev is not None
     if inherit:
         out.append("class Base(StateMachine):")
         out += body
+        if methods_in_base:      # (the base class is a complete machine of its own: it is used before M exists)
+            out += methods(0, [nm for nm in sc["provs"][0] if tuple(nm) not in decor_defined])
         out.append("")
         out.append("class M(Base):")
         if ext_ev is not None:
@@ -788,10 +825,8 @@ def render_source(sc):
     else:
         out.append("class M(StateMachine):")
         out += body
-    decor_defined = ({tuple(nm) for _j, _g, nm in decor_cbs} | ({tuple(decor_ev[1])} if decor_ev else set())
-                     | ({tuple(decor_evobj[2])} if decor_evobj else set())
-                     | {tuple(nm) for _i, _g, nm in state_decor} | callables_)
-    out += methods(0, [nm for nm in sc["provs"][0] if tuple(nm) not in decor_defined])
+    if not (inherit and methods_in_base):
+        out += methods(0, [nm for nm in sc["provs"][0] if tuple(nm) not in decor_defined])
     if inst or hooks:
         out.append("    def __init__(self, *a, hooks=True, **k):")
         for name in inst:
@@ -952,6 +987,10 @@ def render_source(sc):
     if sc.get("mixin"):
         out.append("    model.boot()")
         out.append("    return model.sm")
+    elif sc.get("positional_ctor") and not hooks and not inst:
+        # every option given positionally, in the documented order
+        sv_ = repr(state_value(sc, sc["start"])) if sc.get("start") is not None else "None"
+        out.append(f"    return M(model, 'state', {sv_}, {bool(sc.get('rtc', True))}, {bool(sc.get('allow'))}, listeners)")
     else:
         out.append(f"    return M(model{''.join(', ' + k for k in kw)}, listeners=listeners)")
     return "\n".join(out) + "\n"
@@ -1150,7 +1189,36 @@ def run_impl(sc):
         warnings.simplefilter("always")
 
         async def history():
-            exec(compile(render_source(sc), "<scenario>", "exec"), ns)  # noqa: S102
+            # (late_allow: the machine is constructed with the opposite of allow_event_without_transition and the
+            # public attribute is set to the scenario's value right afterwards)
+            src_ = render_source(dict(sc, allow=not sc.get("allow")) if sc.get("late_allow") else sc)
+            if (sc.get("base_first") and sc.get("extend_event") is not None and not sc.get("sig_attr")
+                    and not sc.get("twin_decoy") and "class M(Base):" in src_
+                    and "\nclass Mdl" in src_):
+                # the base class is USED (an instance is sent the name of the event the subclass will add, and is
+                # refused) before the subclass that adds that event over the inherited transitions is defined
+                head, rest = src_.split("class M(Base):", 1)
+                mbody, tail = rest.split("\nclass Mdl", 1)
+                exec(compile(head, "<scenario>", "exec"), ns)  # noqa: S102
+                exec(compile("class Mdl" + tail, "<scenario>", "exec"), ns)  # noqa: S102
+                with warnings.catch_warnings():
+                    warnings.simplefilter("ignore")
+                    try:
+                        mdl0 = ns["Mdl"]()
+                        R.tags[id(mdl0)] = 99
+                        b0 = ns["Base"](mdl0, listeners=[type(x)() for x in ns["LISTENERS"]])
+                        try:
+                            r0 = b0.send(evname(sc["extend_event"]))
+                            if asyncio.iscoroutine(r0):
+                                r0.close()
+                        except Exception:  # noqa: BLE001 - refused: the base class does not know the event
+                            pass
+                    except Exception:  # noqa: BLE001 - the base instance's own failures are not the scenario's business
+                        pass
+                R.log = []
+                exec(compile("class M(Base):" + mbody, "<scenario>", "exec"), ns)  # noqa: S102
+            else:
+                exec(compile(src_, "<scenario>", "exec"), ns)  # noqa: S102
             R.cls = ns["M"]
             box = {"sm": None, "model": ns["Mdl"](), "listeners": ns["LISTENERS"]}
             if sc.get("field0") is not None:
@@ -1175,6 +1243,8 @@ def run_impl(sc):
                 if op[0] == "construct":
                     box["sm"] = None
                     box["sm"] = ns["construct"](box["model"], box["listeners"])
+                    if sc.get("late_allow"):
+                        box["sm"].allow_event_without_transition = bool(sc.get("allow"))
                     assign_attrs()
                     return None
                 if op[0] == "send":
@@ -1336,6 +1406,8 @@ def cq_script(s):
             acts.append(f"ASend {a[1]} {a[2]}")
         elif a[0] == "raise":
             acts.append(f"ARaise {a[1]}")
+        elif a[0] == "write":
+            acts.append(f"AWrite {a[1]}")
     return f"sc [{'; '.join(acts)}] {cq_val(s['r'])}"
 
 
